@@ -18,9 +18,11 @@ func init() {
 			"missing operand and otherwise the negation of Operand.Eval(v); all of them hand the SAME packet " +
 			"layer v to the children; CondBool returns its own value. (E2) CondIPv4/CondPorts hand " +
 			"the decoded layer (resp. the source/destination ports of the UDP or TCP header) to their " +
-			"predicate and are false for a nil predicate, nil layer or another layer type. NOT decided: the " +
-			"predicates themselves, and everything about printing and re-parsing expressions (candidate rules " +
-			"on format strings vs. the grammar would be brittle proxies).",
+			"predicate and are false for a nil predicate, nil layer or another layer type. (B1) For every numeric " +
+			"predicate field, the base the expression parser reads it in (strconv.ParseUint base in the " +
+			"EnterMatch* listener) equals the base its String method prints it in (fmt verb), so a printed " +
+			"expression re-parses to the same number. NOT decided: the predicates themselves, and the rest of " +
+			"printing and re-parsing expressions (keywords and grammar).",
 		Run: runC43,
 	})
 	setClaim("C43", claim{
@@ -31,6 +33,12 @@ func init() {
 		Ref: "DESIGN.md §0.5 C43"})
 	cf := "gateway/pktcls/cond.go"
 	addMutants(
+		Mutant{Prop: "C43", Name: "tos-parsed-decimal-printed-hex", File: "gateway/pktcls/parse.go",
+			Old: `	tos, err := strconv.ParseUint(ctx.GetStop().GetText(), 16, 8)`,
+			New: `	tos, err := strconv.ParseUint(ctx.GetStop().GetText(), 10, 8)`, Expect: "B1-number-bases"},
+		Mutant{Prop: "C43", Name: "srcport-parsed-hex-printed-decimal", File: "gateway/pktcls/parse.go",
+			Old: `	msrc, err := strconv.ParseUint(ctx.GetStop().GetText(), 10, 16)`,
+			New: `	msrc, err := strconv.ParseUint(ctx.GetStop().GetText(), 16, 16)`, Expect: "B1-number-bases"},
 		Mutant{Prop: "C43", Name: "allof-stops-at-first-true", File: cf,
 			Old: `		if !child.Eval(v) {
 			return false
@@ -148,7 +156,209 @@ func c43Combinator(c *Ctx, q string, on bool, emptyTrue bool) {
 	}
 }
 
+// c43NumberBases: agreement between the base in which the text parser reads a
+// numeric operand into a predicate member and the base in which that member is
+// printed (the writer's and the reader's table).
+func c43NumberBases(c *Ctx) {
+	rule := "B1-number-bases"
+	pkg := c.Prog.SSAPkgs[modPath+"/gateway/pktcls"]
+	if pkg == nil {
+		return
+	}
+	type key struct{ typ, field string }
+	parseBase := map[key]map[string]bool{}
+	printBase := map[key]map[string]bool{}
+	add := func(m map[key]map[string]bool, k key, b string) {
+		if m[k] == nil {
+			m[k] = map[string]bool{}
+		}
+		m[k][b] = true
+	}
+	for fn := range c.Prog.AllFuncs() {
+		if fn.Pkg != pkg || len(fn.Blocks) == 0 {
+			continue
+		}
+		s := NewSymer()
+		name := fn.Name()
+		for _, b := range fn.Blocks {
+			for _, in := range b.Instrs {
+				switch x := in.(type) {
+				case *ssa.Store:
+					// member <- conv(ParseUint(text, base, bits)#0) inside a listener
+					if !strings.HasPrefix(name, "EnterMatch") {
+						continue
+					}
+					fa, ok := x.Addr.(*ssa.FieldAddr)
+					if !ok {
+						continue
+					}
+					call, _ := callOf(stripConv(x.Val))
+					if call == nil {
+						continue
+					}
+					k := key{strings.TrimPrefix(typeShort(fa.X.Type()), "*"), fieldName(fa.X.Type(), fa.Field)}
+					if calleeName(call.Common()) == "strconv.ParseUint" || calleeName(call.Common()) == "strconv.ParseInt" {
+						if bse, isK := foldInt(call.Common().Args[1]); isK {
+							add(parseBase, k, fmt.Sprint(bse))
+						} else {
+							add(parseBase, k, "?"+s.Sym(call.Common().Args[1]))
+						}
+					} else if h := call.Common().StaticCallee(); h != nil && inModule(h) && callsNumberParser(h) {
+						// a helper that parses numbers: the base is no longer a constant of
+						// this listener
+						add(parseBase, k, "?via "+calleeName(call.Common()))
+					}
+				case *ssa.Call:
+					if calleeName(x.Common()) != "fmt.Sprintf" || len(fn.Params) == 0 {
+						continue
+					}
+					fk, isK := x.Common().Args[0].(*ssa.Const)
+					if !isK || fk.Value == nil {
+						continue
+					}
+					format := strings.Trim(fk.Value.ExactString(), `"`)
+					verbs := regexpVerbs(format)
+					args := variadicArgs(x.Common().Args[1])
+					for i, a := range args {
+						if i >= len(verbs) {
+							break
+						}
+						mi, isMI := a.(*ssa.MakeInterface)
+						if !isMI {
+							continue
+						}
+						ld, isLd := mi.X.(*ssa.UnOp)
+						if !isLd {
+							continue
+						}
+						fa, isFA := ld.X.(*ssa.FieldAddr)
+						if !isFA || fa.X != ssa.Value(fn.Params[0]) {
+							continue
+						}
+						k := key{strings.TrimPrefix(typeShort(fa.X.Type()), "*"), fieldName(fa.X.Type(), fa.Field)}
+						switch verbs[i] {
+						case "d":
+							add(printBase, k, "10")
+						case "x", "X", "#x":
+							add(printBase, k, "16")
+						case "o":
+							add(printBase, k, "8")
+						case "b":
+							add(printBase, k, "2")
+						}
+					}
+				}
+			}
+		}
+	}
+	n := 0
+	for k, pb := range parseBase {
+		n++
+		pr := printBase[k]
+		ok := len(pb) == 1 && len(pr) == 1
+		if ok {
+			for b := range pb {
+				ok = pr[b]
+			}
+		}
+		c.Check(ok, rule, k.typ+"."+k.field, 0, fmt.Sprintf("parsed in base %v, printed in base %v", keysOf(pb), keysOf(pr)))
+	}
+	c.Min("numeric-operands-with-text-form", n, 6)
+}
+
+func callsNumberParser(fn *ssa.Function) bool {
+	for _, b := range fn.Blocks {
+		for _, in := range b.Instrs {
+			if ci, ok := in.(ssa.CallInstruction); ok {
+				n := calleeName(ci.Common())
+				if n == "strconv.ParseUint" || n == "strconv.ParseInt" || n == "strconv.Atoi" {
+					return true
+				}
+			}
+		}
+	}
+	return false
+}
+
+func keysOf(m map[string]bool) []string {
+	var l []string
+	for k := range m {
+		l = append(l, k)
+	}
+	sortStrings(l)
+	return l
+}
+
+func sortStrings(l []string) {
+	for i := 1; i < len(l); i++ {
+		for j := i; j > 0 && l[j] < l[j-1]; j-- {
+			l[j], l[j-1] = l[j-1], l[j]
+		}
+	}
+}
+
+// regexpVerbs lists the verbs of a format string in order ("#x", "d", "s").
+func regexpVerbs(f string) []string {
+	var out []string
+	for i := 0; i < len(f); i++ {
+		if f[i] != '%' {
+			continue
+		}
+		j := i + 1
+		flag := ""
+		for j < len(f) && strings.ContainsRune("#+-0 123456789.", rune(f[j])) {
+			if f[j] == '#' {
+				flag = "#"
+			}
+			j++
+		}
+		if j < len(f) {
+			if f[j] == '%' {
+				i = j
+				continue
+			}
+			out = append(out, flag+string(f[j]))
+			i = j
+		}
+	}
+	return out
+}
+
+// variadicArgs lists the values stored into a variadic argument array.
+func variadicArgs(v ssa.Value) []ssa.Value {
+	sl, ok := v.(*ssa.Slice)
+	if !ok {
+		return nil
+	}
+	al, ok := sl.X.(*ssa.Alloc)
+	if !ok || al.Referrers() == nil {
+		return nil
+	}
+	m := map[int64]ssa.Value{}
+	for _, r := range *al.Referrers() {
+		ia, ok := r.(*ssa.IndexAddr)
+		if !ok || ia.Referrers() == nil {
+			continue
+		}
+		k, isK := foldInt(ia.Index)
+		if !isK {
+			continue
+		}
+		for _, rr := range *ia.Referrers() {
+			if st, ok := rr.(*ssa.Store); ok && st.Addr == ia {
+				m[k] = st.Val
+			}
+		}
+	}
+	out := make([]ssa.Value, len(m))
+	for i := range out {
+		out[i] = m[int64(i)]
+	}
+	return out
+}
+
 func runC43(c *Ctx) {
+	c43NumberBases(c)
 	kp := "gateway/pktcls."
 	c43Combinator(c, "("+kp+"CondAllOf).Eval", false, false)
 	c43Combinator(c, "("+kp+"CondAnyOf).Eval", true, true)
